@@ -171,6 +171,15 @@ def audit(theorems, tag, modules):
             res[t] = (False, 'not found / does not check')
     return res, out
 
+def leancheck(modules):
+    """re-check the compiled .olean files of the given modules with the toolchain's independent checker (one module per call)"""
+    bad, log = [], ''
+    for m in modules:
+        rc, out = sh(['lake', 'env', 'leanchecker', m], cwd=LEAN, timeout=1800)
+        if rc != 0:
+            bad.append(m); log += '== %s\n%s\n' % (m, out[-2000:])
+    return bad, log
+
 def repo_rev():
     rc, rev = sh(['git', '-C', REPO, 'rev-parse', 'HEAD'])
     rc2, st = sh(['git', '-C', REPO, 'status', '--porcelain', '--untracked-files=no'])
